@@ -138,53 +138,53 @@ pub fn constructive(r: &mut crate::util::Rng, obs: &mut Obs) -> (Vec<u8>, Vec<Vi
 
 /// ADTS: frames with declared length `flen` for flen in lo..hi, buffer length flen+delta. The
 /// stored sample of every frame the muxer accepts must be frame[hdr..flen].
-pub fn check_adts(protection_absent: bool, delta: i32, lo: u32, hi: u32, obs: &mut Obs) -> Vec<Violation> {
+pub fn check_adts(protection_absent: bool, delta: i32, lo: u32, hi: u32, mix: bool, obs: &mut Obs) -> Vec<Violation> {
     use crate::exec::{run, ExecOpts};
     let mut out = Vec::new();
-    let (h, frames) = adts_history(protection_absent, delta, lo, hi);
-    let hdr = if protection_absent { 7usize } else { 9 };
+    let (h, frames) = adts_history(protection_absent, delta, lo, hi, mix);
     let (ex, sink) = run(&h, &ExecOpts::default());
     if ex.any_panic() {
         obs.inconclusive += 1;
         return out;
     }
-    adts_judge(&h, &ex, &sink.bytes(), &frames, hdr, protection_absent, obs, &mut out);
+    adts_judge(&h, &ex, &sink.bytes(), &frames, protection_absent, mix, obs, &mut out);
     out
 }
 
 /// The history used by the ADTS sweep: one key frame, then one audio frame per declared length.
-pub fn adts_history(protection_absent: bool, delta: i32, lo: u32, hi: u32) -> (History, Vec<(Vec<u8>, usize)>) {
+pub fn adts_history(protection_absent: bool, delta: i32, lo: u32, hi: u32, mix: bool) -> (History, Vec<(Vec<u8>, usize, usize)>) {
     let mut r = crate::util::Rng::new(crate::util::mix(lo as u64, hi as u64 * 4 + protection_absent as u64));
     let mut cfg = Cfg::basic(H264);
     cfg.audio = Some(AudioCfg { kind: 1, rate: 48_000, channels: 2 });
     cfg.fast_start = Some(lo % 2 == 0);
     let key = crate::gen::frames::h264_frame(&mut r, crate::gen::frames::FrameKind::KeyCfg, 16, false);
     let mut ops = vec![Op::wv(0.0, key, true)];
-    let mut frames: Vec<(Vec<u8>, usize)> = Vec::new();
+    let mut frames: Vec<(Vec<u8>, usize, usize)> = Vec::new();
     for (j, flen) in (lo..hi).enumerate() {
         let buf_len = (flen as i64 + delta as i64).max(0) as usize;
         // build header with the declared length, then fill the buffer to buf_len
-        let mut f = mb::build_adts(1, 3, 2, protection_absent, &[], Some(flen as usize), 0, 0);
+        let pa = if mix { (j % 2 == 0) == protection_absent } else { protection_absent };
+        let mut f = mb::build_adts(1, 3, 2, pa, &[], Some(flen as usize), 0, 0);
         while f.len() < buf_len {
             f.push((f.len() as u8).wrapping_mul(31).wrapping_add(j as u8) | 1);
         }
         f.truncate(buf_len.max(0));
         ops.push(Op::wa(j as f64 * 0.02, f.clone()));
-        frames.push((f, flen as usize));
+        frames.push((f, flen as usize, if pa { 7 } else { 9 }));
     }
     ops.push(Op::Finish(FinishKind::InPlaceStats));
     (History { cfg, ops }, frames)
 }
 
 #[allow(clippy::too_many_arguments)]
-fn adts_judge(_h: &History, ex: &crate::exec::Exec, bytes: &[u8], frames: &[(Vec<u8>, usize)], hdr: usize, protection_absent: bool, obs: &mut Obs, out: &mut Vec<Violation>) {
+fn adts_judge(_h: &History, ex: &crate::exec::Exec, bytes: &[u8], frames: &[(Vec<u8>, usize, usize)], protection_absent: bool, mix: bool, obs: &mut Obs, out: &mut Vec<Violation>) {
     let tree = bmff::parse_tree(bytes);
     let movie = bmff::parse_movie(bytes, &tree);
     let Some(at) = movie.tracks.iter().find(|t| &t.handler == b"soun") else {
         out.push(v("adts|no-audio-track".into(), "finished file has no audio track".into()));
         return;
     };
-    let accepted: Vec<&(Vec<u8>, usize)> = frames.iter().zip(ex.results[1..].iter()).filter(|(_, r)| r.is_ok()).map(|(f, _)| f).collect();
+    let accepted: Vec<&(Vec<u8>, usize, usize)> = frames.iter().zip(ex.results[1..].iter()).filter(|(_, r)| r.is_ok()).map(|(f, _)| f).collect();
     obs.count("adts_frames_submitted", frames.len() as u64);
     obs.count("adts_frames_accepted", accepted.len() as u64);
     obs.evaluations += frames.len() as u64;
@@ -192,13 +192,14 @@ fn adts_judge(_h: &History, ex: &crate::exec::Exec, bytes: &[u8], frames: &[(Vec
         out.push(v("adts|sample-count".into(), format!("{} accepted ADTS frames but {} audio samples", accepted.len(), at.samples.len())));
         return;
     }
-    for (s, (f, flen)) in at.samples.iter().zip(accepted.iter()) {
+    for (s, (f, flen, hdr)) in at.samples.iter().zip(accepted.iter()) {
+        let hdr = *hdr;
         let a = s.offset as usize;
         let got = bytes.get(a..a + s.size as usize).unwrap_or(&[]);
         let want = &f[hdr.min(f.len())..(*flen).min(f.len())];
         if got != want {
             out.push(v(
-                format!("adts|payload|protection_absent={}", protection_absent),
+                format!("adts|payload|protection_absent={}{}", protection_absent, if mix { "|alternating" } else { "" }),
                 format!("ADTS frame with declared length {} in a {}-byte buffer: stored sample {} ; expected frame[{}..{}] = {}", flen, f.len(), crate::util::hex_short(got), hdr, flen, crate::util::hex_short(want)),
             ));
             break;
